@@ -692,6 +692,7 @@ std::string detail() { return gg().detail; }
 long live_tracked_blocks() { return gg().live; }
 long tracked_allocs() { return gg().next_block; }
 uint64_t step_count() { return (uint64_t)gg().steps; }
+const Result& partial_result() { return gg().res; }
 WStats wstats() { return gg().ws; }
 void set_solo(int tid, long budget) { G& G_ = gg(); G_.solo = tid; G_.solo_budget = budget; G_.solo_used = 0; }
 bool is_freed(const void* p) { Block* b = find_block((uintptr_t)p); return b && b->freed; }
